@@ -146,6 +146,53 @@ def edit_and_recheck(sh, doc, rng, seed, parts):
         check_sql(sh, d2, db, 'api', 'edited', parts)
 
 
+def api_oddities(sh, rng, tag):
+    """hand-built models outside the document generator's shapes: a table without columns that carries an expression-only
+    index, and an index that another table refused (rejected add_index): every CREATE INDEX of the script must name the
+    table that owns the index, qualified as in its CREATE TABLE, and there must be exactly one statement per owned index"""
+    from pydbml import Database
+    from pydbml.classes import Column, Expression, Index, Table
+    from pv import sqlread
+    nm = gen.Namer(rng)
+    db = Database()
+    schema = rng.choice([None, nm('s')])
+    kw = {'schema': schema} if schema else {}
+    empty = Table(nm('t'), **kw)
+    empty.add_index(Index([Expression('now()')], name=nm('i'), unique=rng.random() < 0.5))
+    own = Table(nm('t'), columns=[Column('id', 'int', pk=True), Column(nm('c'), 'varchar')],
+                **({'schema': nm('s')} if rng.random() < 0.5 else {}))
+    ix = Index([own.columns[1]], name=nm('i'), unique=True)
+    own.add_index(ix)
+    other = Table(nm('t'), columns=[Column('id', 'int', pk=True), Column(own.columns[1].name, 'varchar')])
+    for t in rng.sample([empty, own, other], 3):
+        db.add(t)
+    if rng.random() < 0.5:
+        db.sql
+    try:
+        other.add_index(ix)
+        sh.count('obs.oddities.foreign_index_accepted')
+    except Exception:
+        sh.count('obs.oddities.foreign_index_refused')
+    try:
+        sql = db.sql
+    except Exception as e:
+        cls, where = monitors.classify_exc(e)
+        sh.violation('render', f'sql-raises:{cls}@{where}', f'{cls}: {e}', None, {'suite': 'oddities'})
+        return
+    sh.case(sql, nontrivial=True, sample={'suite': 'oddities', 'sql': sql[:600]})
+    sh.count('obs.cases.oddities.api')
+    rd = sqlread.read(sql)
+    got = sorted((s.get('name'), tuple(s.get('on') or ())) for s in rd['statements'] if s['kind'] == 'create_index')
+    want = sorted((i.name, tuple(x for x in (t.schema if t.schema != 'public' else None, t.name) if x))
+                  for t in db.tables for i in t.indexes)
+    sh.count('obs.oddities.index_statements', len(got))
+    if got != want:
+        sh.violation('index', 'index:index-on-wrong-or-missing-table', f'{tag}: CREATE INDEX (name, ON) {got} != owned indexes {want}',
+                     {'kind': 'oddity', 'sql': sql}, {'suite': 'oddities'})
+    if ix.table is not own:
+        sh.violation('index', 'index:refused-index-relinked', f'{tag}: an index refused by another table no longer points at its owner', None, {'suite': 'oddities'})
+
+
 def plan(tier, seed):
     return [{'shard': i, 'of': 16} for i in range(16)]
 
@@ -181,6 +228,8 @@ def run_shard(spec, tier, seed, budget_s):
             both_origins(sh, doc, f'{seed}-{i}-{k}', suite, PARTS)
             if k % 3 == 0:
                 edit_and_recheck(sh, doc, rng, f'{seed}-{i}-{k}', PARTS)
+            if k % 5 == 0:
+                api_oddities(sh, rng, f'{seed}-{i}-{k}')
             if k % 4 == 0:
                 # notes given as Note objects, one object shared by every owner with the same text
                 import copy
@@ -200,7 +249,7 @@ def run_shard(spec, tier, seed, budget_s):
 def conclusive(agg, tier):
     c = agg['counters']
     out = []
-    for k in ('obs.cases.product.sqlcolumn.api', 'obs.cases.product.sqlcolumn.parsed', 'obs.cases.random.api', 'obs.cases.samebare.api', 'obs.cases.edited.api',
+    for k in ('obs.cases.product.sqlcolumn.api', 'obs.cases.product.sqlcolumn.parsed', 'obs.cases.random.api', 'obs.cases.samebare.api', 'obs.cases.edited.api', 'obs.cases.oddities.api', 'obs.oddities.foreign_index_refused',
               'obs.cases.random.parsed', 'class.schema_qualified_table', 'class.composite_pk_clause',
               'class.table_with_index', 'class.table_with_comment_on', 'obs.statements.create_table',
               'obs.statements.create_index', 'obs.statements.comment_on', 'obs.statements.create_type'):
